@@ -2,8 +2,8 @@
 Proofs about the `MultiSet` model (DESIGN.md A.4): the carry loop is a mixed-radix increment
 (`val (next pos) = val pos + 1`), "finished" exactly at `val = Πn − 1`, `val` is a bijection between
 in-range digit vectors and `range (Πn)`; hence the enumeration is `combos`, of length `Πn`, without
-repetition and complete, and fuel `Πn + 1` suffices.  With no set the iterator diverges, with an
-empty set it panics.
+repetition and complete, and fuel `Πn + 1` suffices — for every input since the repair of the two
+boundary cases (no set: the single empty combination; an empty set: no combination).
 -/
 import Compass.Model.MultiSet
 import Mathlib.Data.List.Nodup
@@ -29,13 +29,13 @@ theorem zeroPrefix_zeros (i : Nat) (p : Nat) (ps : List Nat) :
 
 /-- the loop of the code, run from `idx` on a position whose first `idx` digits are already zero,
 computes `incr` of the remaining digits -/
-theorem carry_eq (finalPos : List Nat) (len : Nat) :
+theorem carry_eq (finalPos : List Nat) (len : Nat) (f0 : Bool) :
     ∀ (ps : List Nat) (idx : Nat), idx + ps.length = len → finalPos.length = len → ps ≠ [] →
       (∀ r, incr ps (finalPos.drop idx) = some r →
-        carry finalPos len ps.length idx (List.replicate idx 0 ++ ps)
+        carry finalPos len f0 ps.length idx (List.replicate idx 0 ++ ps)
           = some (List.replicate idx 0 ++ r, false)) ∧
       (incr ps (finalPos.drop idx) = none →
-        ∃ junk, carry finalPos len ps.length idx (List.replicate idx 0 ++ ps) = some (junk, true)) := by
+        ∃ junk, carry finalPos len f0 ps.length idx (List.replicate idx 0 ++ ps) = some (junk, true)) := by
   intro ps
   induction ps with
   | nil => intro idx _ _ h; exact absurd rfl h
@@ -92,7 +92,7 @@ theorem carry_eq (finalPos : List Nat) (len : Nat) :
 /-! ### mixed-radix arithmetic -/
 
 /-- `final_pos` for sets of sizes `ns` -/
-def finals (ns : List Nat) : List Nat := ns.map usizeSub1
+def finals (ns : List Nat) : List Nat := ns.map (· - 1)
 
 @[simp] theorem inRange_cons_cons (n p : Nat) (ns ps : List Nat) :
     inRange (n :: ns) (p :: ps) = true ↔ p < n ∧ inRange ns ps = true := by simp [inRange]
@@ -167,9 +167,6 @@ theorem val_inj (ns p q : List Nat) (hp : inRange ns p = true) (hq : inRange ns 
     (h : val ns p = val ns q) : p = q := by
   rw [← digits_val ns p hp, ← digits_val ns q hq, h]
 
-theorem usizeSub1_pos {n : Nat} (h : 0 < n) : usizeSub1 n = n - 1 := by
-  simp [usizeSub1]; omega
-
 /-- one step of the counter: the successor is again an index vector and its value is one more -/
 theorem incr_some : ∀ (ns p p' : List Nat), inRange ns p = true → incr p (finals ns) = some p' →
     inRange ns p' = true ∧ val ns p' = val ns p + 1
@@ -177,14 +174,14 @@ theorem incr_some : ∀ (ns p p' : List Nat), inRange ns p = true → incr p (fi
   | n :: ns, p, p', h, hi => by
     obtain ⟨d, ps, rfl, hd, h'⟩ := (inRange_cons_iff n ns p).mp h
     have hn : 0 < n := by omega
-    simp only [finals, List.map_cons, incr, usizeSub1_pos hn] at hi
+    simp only [finals, List.map_cons, incr] at hi
     by_cases hlt : d < n - 1
     · simp only [hlt, if_true, Option.some.injEq] at hi
       subst hi
       simp only [inRange_cons_cons, val]
       exact ⟨⟨by omega, h'⟩, by omega⟩
     · simp only [hlt, if_false] at hi
-      cases hr : incr ps (List.map usizeSub1 ns) with
+      cases hr : incr ps (List.map (· - 1) ns) with
       | none => rw [hr] at hi; simp at hi
       | some r =>
         rw [hr] at hi
@@ -201,7 +198,7 @@ theorem incr_none : ∀ (ns p : List Nat), inRange ns p = true → incr p (final
   | n :: ns, p, h, hi => by
     obtain ⟨d, ps, rfl, hd, h'⟩ := (inRange_cons_iff n ns p).mp h
     have hn : 0 < n := by omega
-    simp only [finals, List.map_cons, incr, usizeSub1_pos hn] at hi
+    simp only [finals, List.map_cons, incr] at hi
     by_cases hlt : d < n - 1
     · simp [hlt] at hi
     · simp only [hlt, if_false, Option.map_eq_none_iff] at hi
@@ -270,8 +267,15 @@ def at_ (sets : List (List α)) (pos : Option (List Nat)) : MultiSet α :=
   { sets := sets, pos := pos, finalPos := finals (sizesOf sets) }
 
 theorem from_eq (sets : List (List α)) :
-    MultiSet.from sets = at_ sets (some (List.replicate sets.length 0)) := by
+    MultiSet.from sets
+      = at_ sets (if sets.any List.isEmpty then none else some (List.replicate sets.length 0)) := by
   simp [MultiSet.from, at_, finals, List.map_map, Function.comp_def]
+
+theorem any_isEmpty_false (sets : List (List α)) (hpos : ∀ s ∈ sets, s ≠ []) :
+    sets.any List.isEmpty = false := by
+  rw [List.any_eq_false]
+  intro s hs
+  simpa using hpos s hs
 
 /-- `next` hands out the items at `p` and moves to the successor of `p` (no panic) -/
 theorem next_at (sets : List (List α)) (hne : sets ≠ []) (p : List Nat)
@@ -282,7 +286,7 @@ theorem next_at (sets : List (List α)) (hne : sets ≠ []) (p : List Nat)
     intro h; subst h; simp at hlen; exact hne (List.length_eq_zero_iff.mp hlen.symm)
   have hpick := pickFrom_eq sets p 0 (by simpa using hr)
   simp only [List.drop_zero] at hpick
-  obtain ⟨c1, c2⟩ := carry_eq (finals (sizesOf sets)) sets.length p 0 (by omega)
+  obtain ⟨c1, c2⟩ := carry_eq (finals (sizesOf sets)) sets.length sets.isEmpty p 0 (by omega)
     (by simp [finals]) hp
   simp only [List.drop_zero, List.replicate_zero, List.nil_append] at c1 c2
   rw [hlen] at c1 c2
@@ -362,7 +366,9 @@ theorem collectMap_from (sets : List (List α)) (hne : sets ≠ []) (hpos : ∀ 
   simp only [sizesOf, List.length_map] at hz hv
   obtain ⟨j, hj⟩ : ∃ j, prod (sizesOf sets) = j + 1 := ⟨prod (sizesOf sets) - 1, by omega⟩
   have := collectMap_at sets hne f g hf j _ hz (by rw [hv]; omega)
-  rw [from_eq, fuelFor, hj, this, hv, combos, hj, List.range_eq_range', List.map_map]
+  rw [from_eq, any_isEmpty_false sets hpos]
+  simp only [Bool.false_eq_true, if_false]
+  rw [fuelFor, hj, this, hv, combos, hj, List.range_eq_range', List.map_map]
   rfl
 
 theorem collect_from (sets : List (List α)) (hne : sets ≠ []) (hpos : ∀ s ∈ sets, s ≠ []) :
@@ -400,53 +406,86 @@ theorem collectMap_fuel_mono (f : List α → Outcome β) : ∀ (n : Nat) (ms : 
             rw [collectMap_fuel_mono f n ms' ys hc k]
             exact h
 
-/-! ### the two partial cases -/
+/-! ### the two boundary cases (repaired) and the enumeration for every input -/
 
-/-- no set at all: the iterator yields `[]` for ever — no fuel suffices (whatever is mapped over it,
-as long as that does not panic on `[]`) -/
-theorem collectMap_no_sets_diverges (f : List α → Outcome β) (y : β) (hf : f [] = .ok y)
-    (fuel : Nat) : collectMap f fuel (MultiSet.from ([] : List (List α))) = .diverges := by
-  induction fuel with
-  | zero => rfl
-  | succ n ih =>
-    have hn : next (MultiSet.from ([] : List (List α)))
-        = .ok (some [], MultiSet.from ([] : List (List α))) := rfl
-    rw [collectMap, hn]
-    simp [hf, ih]
+theorem prod_eq_zero_of_mem : ∀ (ns : List Nat), 0 ∈ ns → prod ns = 0
+  | n :: ns, h => by
+    rcases List.mem_cons.mp h with e | h
+    · subst e; simp [prod]
+    · simp [prod, prod_eq_zero_of_mem ns h]
 
-theorem collect_no_sets_diverges (fuel : Nat) :
-    collect fuel (MultiSet.from ([] : List (List α))) = .diverges :=
-  collectMap_no_sets_diverges .ok [] rfl fuel
+/-- no set at all: the single empty combination, then the end -/
+theorem collectMap_no_sets (f : List α → Outcome β) (y : β) (hf : f [] = .ok y) (fuel : Nat) :
+    collectMap f (fuel + 2) (MultiSet.from ([] : List (List α))) = .ok [y] := by
+  have hn : next (MultiSet.from ([] : List (List α)))
+      = .ok (some [], at_ ([] : List (List α)) none) := rfl
+  rw [collectMap, hn]
+  simp only [hf]
+  rw [collectMap, next_done]
 
-theorem pickFrom_empty (sets : List (List α)) : ∀ (k i : Nat), i + k = sets.length →
-    (∃ s ∈ sets.drop i, s = []) → pickFrom sets i (List.replicate k 0) = none
-  | 0, i, hk, h => by
-    rw [List.drop_eq_nil_of_le (by omega)] at h; simp at h
-  | k + 1, i, hk, h => by
-    have hi : i < sets.length := by omega
-    rw [List.drop_eq_getElem_cons hi] at h
-    simp only [List.replicate_succ, pickFrom, List.getElem?_eq_getElem hi]
-    by_cases he : sets[i] = []
-    · simp [he]
-    · have h' : ∃ s ∈ sets.drop (i + 1), s = [] := by
-        obtain ⟨s, hs, rfl⟩ := h
-        rcases List.mem_cons.mp hs with h1 | h1
-        · exact absurd h1.symm he
-        · exact ⟨[], h1, rfl⟩
-      have ih := pickFrom_empty sets k (i + 1) (by omega) h'
-      have : sets[i][0]? = some (sets[i][0]'(List.length_pos_iff.mpr he)) :=
-        List.getElem?_eq_getElem _
-      simp [this, ih]
+/-- an empty set: no combination (`pos` is `None` from the start) -/
+theorem collectMap_empty_set (f : List α → Outcome β) (sets : List (List α)) (h : [] ∈ sets)
+    (fuel : Nat) : collectMap f (fuel + 1) (MultiSet.from sets) = .ok [] := by
+  have hany : sets.any List.isEmpty = true := List.any_eq_true.mpr ⟨[], h, rfl⟩
+  rw [from_eq, hany]
+  simp only [if_true]
+  rw [collectMap, next_done]
 
-/-- an empty set: `len − 1` wraps and the first `next` indexes out of bounds -/
-theorem collectMap_empty_set_panics (f : List α → Outcome β) (sets : List (List α)) (h : [] ∈ sets)
-    (fuel : Nat) : collectMap f (fuel + 1) (MultiSet.from sets) = .panic "multiset/sets-index" := by
-  have hp := pickFrom_empty sets sets.length 0 (by omega) ⟨[], by simpa using h, rfl⟩
-  simp [collectMap, next, MultiSet.from, hp]
+/-- **the enumeration, every input**: `map f` over the iterator ends within fuel `Πn + 1`, never
+panics, and yields the combinations in the order of `combos` — one empty combination for no set,
+none when a set is empty -/
+theorem collectMap_from_all (sets : List (List α)) (f : List α → Outcome β) (g : List α → β)
+    (hf : ∀ c, inRange (sizesOf sets) c = true → f (pick sets c) = .ok (g (pick sets c))) :
+    collectMap f (fuelFor (sizesOf sets)) (MultiSet.from sets)
+      = .ok ((combos (sizesOf sets)).map (fun c => g (pick sets c))) := by
+  by_cases hne : sets = []
+  · subst hne
+    have h0 := hf [] (by simp [inRange])
+    simp only [pick_nil_right] at h0
+    have := collectMap_no_sets f (g []) h0 0
+    simpa [fuelFor, prod, combos, digits] using this
+  · by_cases hem : [] ∈ sets
+    · have hz : prod (sizesOf sets) = 0 :=
+        prod_eq_zero_of_mem _ (List.mem_map.mpr ⟨[], hem, rfl⟩)
+      have := collectMap_empty_set f sets hem 0
+      simpa [fuelFor, hz, combos] using this
+    · exact collectMap_from sets hne (fun s hs e => hem (e ▸ hs)) f g hf
 
-theorem collect_empty_set_panics (sets : List (List α)) (h : [] ∈ sets) (fuel : Nat) :
-    collect (fuel + 1) (MultiSet.from sets) = .panic "multiset/sets-index" :=
-  collectMap_empty_set_panics .ok sets h fuel
+theorem collect_from_all (sets : List (List α)) :
+    toList sets = .ok ((combos (sizesOf sets)).map (pick sets)) :=
+  collectMap_from_all sets .ok id (fun _ _ => rfl)
+
+/-- a bounded run (`take(k)`) of a run that ends: the first `k` items, and whether the end was seen -/
+theorem takeN_of_collect : ∀ (fuel : Nat) (ms : MultiSet α) (l : List (List α)),
+    collect fuel ms = .ok l → ∀ k, takeN k ms = .ok (l.take k, decide (l.length < k))
+  | 0, _, _, h, _ => by simp [collect, collectMap] at h
+  | fuel + 1, ms, l, h, k => by
+    simp only [collect, collectMap] at h
+    cases hn : next ms with
+    | panic s => rw [hn] at h; simp at h
+    | diverges => rw [hn] at h; simp at h
+    | ok r =>
+      obtain ⟨o, ms'⟩ := r
+      rw [hn] at h
+      cases o with
+      | none =>
+        simp only [Outcome.ok.injEq] at h
+        subst h
+        cases k <;> simp [takeN, hn]
+      | some x =>
+        simp only at h
+        cases hc : collectMap Outcome.ok fuel ms' with
+        | panic s => rw [hc] at h; simp at h
+        | diverges => rw [hc] at h; simp at h
+        | ok ys =>
+          rw [hc] at h
+          simp only [Outcome.ok.injEq] at h
+          subst h
+          cases k with
+          | zero => simp [takeN]
+          | succ k =>
+            have ih := takeN_of_collect fuel ms' ys hc k
+            simp [takeN, hn, ih]
 
 end iterator
 
